@@ -1,7 +1,9 @@
 //! Correspondence harness: drives the real stats-ci API and prints, one case per line,
 //! `<property> <entry> <args…> => <what the implementation returned>`.
 mod enc;
+mod gen;
 mod interval_ops;
+mod stat_ops;
 
 use enc::*;
 use std::io::Write;
@@ -67,6 +69,9 @@ fn gen(prop: &str, tier: &str, seed: u64) -> Vec<String> {
             interval_ops::c19_display(&mut out, &cs);
             interval_ops::c19_display(&mut out, &[-1.5f64, 0.0, 2.0, 1e21, 1e-7, f64::INFINITY]);
         }
+        "C01" => stat_ops::c01(&mut out, &mut rng, tier),
+        "C05" => stat_ops::c05(&mut out, &mut rng, tier),
+        "C04" => stat_ops::c04(&mut out, &mut rng, tier),
         _ => {
             eprintln!("unknown property {}", prop);
             std::process::exit(2);
@@ -93,6 +98,35 @@ fn main() {
             let mut w = std::io::BufWriter::new(stdout.lock());
             for l in lines {
                 writeln!(w, "{}", l).unwrap();
+            }
+        }
+        "crit" => {
+            // the external quantile routine (statrs), called directly, for the model's requests
+            use statrs::distribution::{ContinuousCDF, Normal, StudentsT};
+            use std::io::BufRead;
+            let stdin = std::io::stdin();
+            let stdout = std::io::stdout();
+            let mut w = std::io::BufWriter::new(stdout.lock());
+            let normal = Normal::new(0., 1.).unwrap();
+            let f = |t: &str| -> f64 { f64::from_bits(u64::from_str_radix(&t[1..], 16).unwrap()) };
+            for line in stdin.lock().lines() {
+                let line = line.unwrap();
+                let line = line.trim();
+                if line == "-" || line.is_empty() {
+                    writeln!(w, "-").unwrap();
+                    continue;
+                }
+                let mut vals = Vec::new();
+                for req in line.split(" ; ") {
+                    let t: Vec<&str> = req.split_whitespace().collect();
+                    let v = std::panic::catch_unwind(|| match t[0] {
+                        "t" => StudentsT::new(0., 1., f(t[1])).unwrap().inverse_cdf(f(t[2])),
+                        _ => normal.inverse_cdf(f(t[1])),
+                    })
+                    .unwrap_or(f64::NAN);
+                    vals.push(v.enc());
+                }
+                writeln!(w, "{}", vals.join(" ")).unwrap();
             }
         }
         _ => {
